@@ -229,3 +229,128 @@ theorem WF_eq_goC (ts : List Tok) : WF ts = goC ts 0 .lp := by
       | word w => simp [goC, isWith, Kind.opens]
 
 end LicP
+
+namespace LicP
+open Spdx Lic
+
+/-! ### the recogniser decides the declarative grammar -/
+
+theorem term_sound (sub : List Tok → Option (List Tok))
+    (hs : ∀ ts r, sub ts = some r → ∃ x, Compound x ∧ ts = x ++ r)
+    (ts r : List Tok) (h : term sub ts = some r) : ∃ x, Compound x ∧ ts = x ++ r := by
+  cases ts with
+  | nil => simp [term] at h
+  | cons t ts' =>
+    cases t with
+    | rp => simp [term] at h
+    | and => simp [term] at h
+    | or => simp [term] at h
+    | «with» => simp [term] at h
+    | lp =>
+      rw [term_lp] at h
+      cases hsr : sub ts' with
+      | none => simp [hsr] at h
+      | some b =>
+        cases b with
+        | nil => simp [hsr] at h
+        | cons u b' =>
+          cases u <;> simp [hsr] at h
+          subst h
+          obtain ⟨x, hx, he⟩ := hs _ _ hsr
+          exact ⟨.lp :: x ++ [.rp], .paren x hx, by rw [he]; simp⟩
+    | word a =>
+      by_cases hex : ∃ e r', ts' = .with :: .word e :: r'
+      · obtain ⟨e, r', rfl⟩ := hex
+        rw [term_with] at h
+        split at h
+        · rename_i hv
+          simp only [Bool.and_eq_true] at hv
+          simp only [Option.some.injEq] at h; subst h
+          exact ⟨_, .withExc a e hv.1 hv.2, rfl⟩
+        · simp at h
+      · have hne : ∀ e r', ts' ≠ .with :: .word e :: r' := fun e r' h => hex ⟨e, r', h⟩
+        rw [term_word _ _ _ hne] at h
+        split at h
+        · rename_i hv
+          simp only [Option.some.injEq] at h; subst h
+          exact ⟨_, .simple a hv, rfl⟩
+        · simp at h
+
+theorem parse_sound (n : Nat) (ts r : List Tok) (h : parse n ts = some r) : ∃ x, Compound x ∧ ts = x ++ r := by
+  induction n generalizing ts r with
+  | zero => simp [parse] at h
+  | succ n ih =>
+    simp only [parse] at h
+    cases ht : term (parse n) ts with
+    | none => simp [ht] at h
+    | some b =>
+      obtain ⟨x, hx, he⟩ := term_sound (parse n) ih ts b ht
+      rw [ht] at h
+      cases b with
+      | nil => simp only [Option.some.injEq] at h; subst h; exact ⟨x, hx, he⟩
+      | cons u b' =>
+        cases u with
+        | and =>
+          obtain ⟨y, hy, he2⟩ := ih _ _ h
+          exact ⟨x ++ .and :: y, .and x y hx hy, by rw [he, he2]; simp⟩
+        | or =>
+          obtain ⟨y, hy, he2⟩ := ih _ _ h
+          exact ⟨x ++ .or :: y, .or x y hx hy, by rw [he, he2]; simp⟩
+        | lp => simp only [Option.some.injEq] at h; subst h; exact ⟨x, hx, he⟩
+        | rp => simp only [Option.some.injEq] at h; subst h; exact ⟨x, hx, he⟩
+        | «with» => simp only [Option.some.injEq] at h; subst h; exact ⟨x, hx, he⟩
+        | word w => simp only [Option.some.injEq] at h; subst h; exact ⟨x, hx, he⟩
+
+/-- what may follow a compound expression -/
+def Follow (R : List Tok) : Prop := R = [] ∨ (∃ R', R = .rp :: R') ∨ (∃ R', R = .and :: R') ∨ (∃ R', R = .or :: R')
+
+theorem follow_not_with {R : List Tok} (h : Follow R) : ∀ e r, R ≠ .with :: .word e :: r := by
+  intro e r hc
+  rcases h with h | ⟨_, h⟩ | ⟨_, h⟩ | ⟨_, h⟩ <;> rw [h] at hc <;> simp at hc
+
+/-- the machine walks over a compound expression and ends in a closed state -/
+theorem compound_goC {x : List Tok} (hx : Compound x) :
+    ∀ (R : List Tok) (d : Nat) (k : Kind), k.opens = true → Follow R → goC (x ++ R) d k = goC R d .rp := by
+  induction hx with
+  | simple a ha =>
+    intro R d k hk hR
+    have hw : isWith k = false := by cases k <;> simp_all [Kind.opens, isWith]
+    simp only [List.cons_append, List.nil_append, goC, hw, Bool.false_eq_true, if_false, hk, ha, Bool.true_and]
+    exact goC_lic R d (follow_not_with hR)
+  | withExc a e ha he =>
+    intro R d k hk hR
+    have hw : isWith k = false := by cases k <;> simp_all [Kind.opens, isWith]
+    simp only [List.cons_append, List.nil_append, goC, hw, Bool.false_eq_true, if_false, hk, ha, he, Bool.true_and,
+      show isLic Kind.lic = true from rfl, show isWith Kind.with = true from rfl, if_true, goC_exc]
+  | and x y _ _ ihx ihy =>
+    intro R d k hk hR
+    rw [List.append_assoc, List.cons_append, ihx (.and :: (y ++ R)) d k hk (Or.inr (Or.inr (Or.inl ⟨_, rfl⟩)))]
+    simp only [goC, Kind.closes, Bool.true_and]
+    exact ihy R d .op rfl hR
+  | or x y _ _ ihx ihy =>
+    intro R d k hk hR
+    rw [List.append_assoc, List.cons_append, ihx (.or :: (y ++ R)) d k hk (Or.inr (Or.inr (Or.inr ⟨_, rfl⟩)))]
+    simp only [goC, Kind.closes, Bool.true_and]
+    exact ihy R d .op rfl hR
+  | paren x _ ih =>
+    intro R d k hk hR
+    simp only [List.cons_append, List.append_assoc, goC, hk, Bool.true_and]
+    rw [ih _ (d + 1) .lp rfl (Or.inr (Or.inl ⟨_, rfl⟩))]
+    simp [goC, Kind.closes]
+
+/-- **the recogniser decides the grammar** -/
+theorem WF_iff_compound (ts : List Tok) : WF ts = true ↔ Compound ts := by
+  constructor
+  · intro h
+    unfold WF at h
+    have h' : parse (ts.length + 1) ts = some [] := by simpa using h
+    obtain ⟨x, hx, he⟩ := parse_sound _ _ _ h'
+    simp only [List.append_nil] at he
+    rw [he]; exact hx
+  · intro h
+    rw [WF_eq_goC]
+    have := compound_goC h [] 0 .lp rfl (Or.inl rfl)
+    simp only [List.append_nil] at this
+    rw [this]; rfl
+
+end LicP
